@@ -281,6 +281,7 @@ Proof.
     pose proof (GI (set_units (owed s) (ks_pending s - 1) (leaked s) (spurious s) s)) as X.
     destruct (get_id _) as [[i|] s2]; proj; cbn [snd] in *; proj; congruence.
   - proj. auto.
+  - proj. auto.
 Qed.
 
 Lemma step_good o : raced (step s o) = false -> Good (step s o).
@@ -310,6 +311,7 @@ Proof.
   - apply good_ownerreturn.
   - apply good_setkslock.
   - apply good_setksgetid.
+  - unfold step. apply good_flags.
   - unfold step. apply good_flags.
 Qed.
 End Step.
